@@ -10,6 +10,7 @@ import (
 	"os/exec"
 	"path/filepath"
 	"sort"
+	"strings"
 
 	"verifharness/vh"
 )
@@ -45,6 +46,8 @@ type H struct {
 	ran      map[string]int
 	toCoq    int
 	rng      *vh.Rng
+	rings    map[string][]*Case // the last few accepted cases per format driver
+	fmtCases int
 	verbose  bool
 	trace    string // when set: the last 16 cases are written here before each run (crash localisation)
 	recent   []Case
@@ -266,10 +269,112 @@ func genTxt(r *vh.Rng, relChar bool) string {
 func (h *H) generated(c *Case, toCoq bool) {
 	h.decorate(c)
 	out := h.runCase(c, toCoq, false)
+	if c.Driver != "direct" && out.ran {
+		ring := h.rings[c.Driver]
+		ring = append(ring, c)
+		if len(ring) > 6 {
+			ring = ring[1:]
+		}
+		h.rings[c.Driver] = ring
+		h.fmtCases++
+		if h.fmtCases%120 == 0 && len(ring) >= 3 {
+			mode := []string{"alternate", "concurrent"}[(h.fmtCases/120)%2]
+			h.together(ring[len(ring)-3], ring[len(ring)-2], ring[len(ring)-1], mode)
+		}
+	}
 	h.count(c, out)
 	h.report(c, out)
 	if toCoq && out.ran {
 		h.sum.Sample(map[string]interface{}{"case": c, "word": wordStr(c.Units), "observed": out.impl, "greedy_matcher": out.spec})
+	}
+}
+
+// implStepper builds the real reader for a format case (nil if the schema is rejected).
+func implStepper(c *Case) *stepper {
+	if c.Driver == "direct" {
+		return nil
+	}
+	rt, err := validate(c.Driver, schemaFor(c.Driver, eff0(c), c.Omit, c.RelChar), c.Filter)
+	if err != nil {
+		return nil
+	}
+	input := inputFor(c.Driver, c.Units)
+	if c.RawHex != "" {
+		input, _ = hex.DecodeString(c.RawHex)
+	}
+	st, _ := formatStepper(c.Driver, rt, input, len(c.Units), c.Release)
+	return st
+}
+
+func soloResult(c *Case) *Result {
+	st := implStepper(c)
+	if st == nil {
+		return nil
+	}
+	for !st.done {
+		st.step()
+	}
+	return st.res
+}
+
+// together: readers must not share state.  Case x runs to its terminal result; then readers for a
+// and b are alive at once -- advanced in turns on one goroutine ("alternate") or on two goroutines
+// ("concurrent") -- and each must give exactly the result it gives alone.
+func (h *H) together(x, a, b *Case, mode string) {
+	ra, rb := soloResult(a), soloResult(b)
+	if ra == nil || rb == nil {
+		return
+	}
+	h.ran["together:"+mode]++
+	if h.trace != "" {
+		h.recent = append(h.recent, *x, *a, *b)
+	}
+	if sx := implStepper(x); sx != nil {
+		for !sx.done {
+			sx.step()
+		}
+		// keep reading at the terminal result: the EDI reader re-reads its input at EOF
+		func() {
+			defer func() { _ = recover() }()
+			for i := 0; i < 3; i++ {
+				_, _ = sx.rd.Read()
+			}
+		}()
+	}
+	sa, sb := implStepper(a), implStepper(b)
+	if sa == nil || sb == nil {
+		return
+	}
+	if mode == "alternate" {
+		for k := 0; !sa.done || !sb.done; k++ {
+			for i := 0; i <= k%3; i++ {
+				sa.step()
+			}
+			for i := 0; i <= (k+1)%2; i++ {
+				sb.step()
+			}
+		}
+	} else {
+		done := make(chan bool, 2)
+		for _, st := range []*stepper{sa, sb} {
+			go func(st *stepper) {
+				for !st.done {
+					st.step()
+				}
+				done <- true
+			}(st)
+		}
+		<-done
+		<-done
+	}
+	for i, pair := range [][2]*Result{{sa.res, ra}, {sb.res, rb}} {
+		if why := sameResult(pair[0], pair[1], false); why != "" {
+			which := []string{"a", "b"}[i]
+			h.sum.Fail("two readers alive at once ("+mode+") after an earlier reader ran to its end: reader "+which+" no longer gives the result it gives alone: "+strings.Replace(why, "the greedy matcher yields", "alone it gives", 1),
+				map[string]interface{}{"together": mode, "first": x, "a": a, "b": b},
+				map[string]interface{}{"together": pair[0], "alone": pair[1]})
+			return
+		}
 	}
 }
 
@@ -328,6 +433,25 @@ func (h *H) replay(file string) {
 			for i := range sq.Sequence {
 				out := h.runCase(&sq.Sequence[i], false, true)
 				fmt.Printf("  #%d driver=%s word=%s oracle=%q\n", i+1, sq.Sequence[i].Driver, wordStr(sq.Sequence[i].Units), out.oracle)
+			}
+			return
+		}
+		var tg struct {
+			Together string `json:"together"`
+			First    *Case  `json:"first"`
+			A        *Case  `json:"a"`
+			B        *Case  `json:"b"`
+		}
+		if json.Unmarshal(body.Case, &tg) == nil && tg.Together != "" && tg.First != nil && tg.A != nil && tg.B != nil {
+			fmt.Printf("replay: reader for %s/%s runs to its end, then readers for %s/%s and %s/%s are alive at once (%s)\n",
+				tg.First.Driver, wordStr(tg.First.Units), tg.A.Driver, wordStr(tg.A.Units), tg.B.Driver, wordStr(tg.B.Units), tg.Together)
+			h.together(tg.First, tg.A, tg.B, tg.Together)
+			if len(h.sum.Failures) == 0 {
+				fmt.Println("oracle           holds: both readers give the result they give alone")
+			} else {
+				fmt.Println("oracle          ", h.sum.Failures[0].What)
+				d, _ := json.Marshal(h.sum.Failures[0].Detail)
+				fmt.Printf("detail           %.1500s\n", d)
 			}
 			return
 		}
@@ -411,7 +535,7 @@ func main() {
 		return
 	}
 	r := vh.NewRng(o.Seed)
-	h := &H{o: o, ran: map[string]int{}, trace: os.Getenv("C05_TRACE"), rng: r}
+	h := &H{o: o, ran: map[string]int{}, trace: os.Getenv("C05_TRACE"), rng: r, rings: map[string][]*Case{}}
 	if f := os.Getenv("C05_SEQ"); f != "" {
 		// crash localisation: run just these cases, in order
 		var seq []Case
@@ -477,7 +601,7 @@ func main() {
 				enumSpace++
 				h.generated(&Case{Driver: "direct", Decls: ds, Units: w, Release: enumRun % 3}, coqEvery(8))
 				if enumRun%5 == 0 {
-					viaFormat(ds, w, coqEvery(2))
+					viaFormat(ds, w, coqEvery(4))
 				}
 			})
 		}
@@ -538,9 +662,9 @@ func main() {
 								allWords(alphabet(2), wl, func(us []Unit) {
 									w := append([]Unit(nil), us...)
 									enumRun++
-									h.generated(&Case{Driver: "direct", Decls: ds, Units: w, Release: enumRun % 3}, coqEvery(400))
+									h.generated(&Case{Driver: "direct", Decls: ds, Units: w, Release: enumRun % 3}, coqEvery(700))
 									if enumRun%150 == 0 {
-										viaFormat(ds, w, coqEvery(3))
+										viaFormat(ds, w, coqEvery(5))
 									}
 								})
 							}
@@ -575,9 +699,9 @@ func main() {
 		}
 		w := randWord(r, alphabet(nn), 6)
 		enumRun++
-		h.generated(&Case{Driver: "direct", Decls: ds, Units: w, Release: r.Pick(3)}, coqEvery(60))
+		h.generated(&Case{Driver: "direct", Decls: ds, Units: w, Release: r.Pick(3)}, coqEvery(100))
 		if i%40 == 0 || (dup && i%8 == 0) {
-			viaFormat(ds, w, coqEvery(2))
+			viaFormat(ds, w, coqEvery(4))
 		}
 	}
 	fmt.Printf("small scope: %d (hierarchy, word) pairs run on the hierarchy reader (%d of them by exhaustive enumeration of <=2 declarations, words <= %d; the rest sampled from <=4 declarations, depth <=3, words <=6)\n",
@@ -604,10 +728,39 @@ func main() {
 		}
 		if flat {
 			drv := formats[i%2]
-			h.generated(&Case{Driver: drv, Decls: ds, Units: us, Release: r.Pick(3), Omit: r.Chance(0.5)}, coqEvery(3))
+			h.generated(&Case{Driver: drv, Decls: ds, Units: us, Release: r.Pick(3), Omit: r.Chance(0.5)}, coqEvery(4))
 		} else {
 			fmtTick = 2
-			viaFormat(ds, us, coqEvery(3))
+			viaFormat(ds, us, coqEvery(4))
+		}
+	}
+
+	// ---- (c) long inputs: hundreds of multi-line envelopes/records, blank lines inside and between
+	//         them, a leading filler line whose length is swept (every alignment to the 4096-byte
+	//         reader buffer occurs), through the real csv2 / fixedlength2 readers ----
+	nlong := o.Count(70, 1500)
+	var longs []*Case
+	for i := 0; i < nlong; i++ {
+		c := genLong(r, []string{"fixedlength2", "csv2"}[i%2], i/2%64, i/2%5)
+		h.generated(c, i%12 == 0)
+		h.sum.Hist("long-input")
+		longs = append(longs, c)
+		if len(longs) >= 3 && i%6 == 5 {
+			n := len(longs)
+			h.together(longs[n-3], longs[n-2], longs[n-1], []string{"alternate", "concurrent"}[i/6%2])
+		}
+	}
+
+	// ---- (d) EDI inputs of several scanner-buffer refills, and readers alive at once ----
+	nedi := o.Count(90, 2000)
+	var edis []*Case
+	for i := 0; i < nedi; i++ {
+		c := genEdiLong(r)
+		h.generated(c, i%6 == 0)
+		h.sum.Hist("edi-long-input")
+		edis = append(edis, c)
+		if n := len(edis); n >= 3 && i%2 == 1 {
+			h.together(edis[n-3], edis[n-2], edis[n-1], []string{"alternate", "concurrent"}[i/2%2])
 		}
 	}
 
